@@ -3,7 +3,7 @@ use crate::prog;
 use tsrun::{JsValue, ModulePath, OrderResponse, RuntimeValue, StepResult};
 
 /// line: JSON {"gc": threshold|null, "runs": [{"src": "...", "mode": "eval"|"steps", "path": "/m/x"|null,
-///              "abandon": k|null, "collect_every": n|null, "mods": {path: src}}, …]}
+///              "abandon": k|null, "collect_every": n|null, "mods": {path: src}}, …], "internal": {specifier: src}}
 /// per run output (joined by '|'):  `<outcome>;live=<n>;st=<quiescence flags>`
 ///   outcome: OK <value> | ERR <class> | ABANDONED@k | SUSPENDED | NEED
 ///   st: g<env_is_global>e<env_guards>c<call_stack>v<active_vm>s<saved_env>m<module_env>x<exports>r<root_guard_len>d<call_depth>
@@ -15,6 +15,14 @@ pub fn line(l: &str) -> String {
     let (mut interp, log) = prog::new_interp();
     if let Some(t) = v["gc"].as_u64() {
         interp.set_gc_threshold(t as usize);
+    }
+    // internal source modules ("internal": {specifier: source}) are registered once, before the first run
+    if let Some(m) = v["internal"].as_object() {
+        for (spec, src) in m {
+            if let Some(src) = src.as_str() {
+                interp.register_internal_module(tsrun::InternalModule::source(spec.as_str(), src));
+            }
+        }
     }
     let mut out: Vec<String> = Vec::new();
     let empty = Vec::new();
